@@ -7,6 +7,7 @@
 -/
 import LccModel.Proto
 import LccModel.Model.Callable
+import LccModel.Model.PolicySeq
 open Lean LccModel LccModel.Proto LccModel.Loops
 
 def getStrs (j : Json) (k : String) : Except String (List String) := do
@@ -170,7 +171,75 @@ def simulate (R : Fixture.Registry) (dsess dsuite dtest suiteFx testFx : List St
   | .ok () => "ok"
   | .error e => e
 
+/-! ### sequences on ONE policy object (`C14.reconfig`): configure -> check -> reconfigure -> check … -/
+
+def getOptBool (j : Json) (k : String) : Except String (Option Bool) :=
+  match j.getObjVal? k with
+  | .error _ => .ok none
+  | .ok .null => .ok none
+  | .ok v => do let b ← v.getBool?; pure (some b)
+
+def parseSeqTest (j : Json) : Except String Prepare.PTest := do
+  pure ⟨← getStr j "path", [], [], false, [], ← parseKVs j "props", ← getStrs j "tags"⟩
+
+partial def parseSeqSuite (j : Json) : Except String Prepare.PSuite := do
+  let tests ← (← getArr j "tests").toList.mapM parseSeqTest
+  let subs ← (← getArr j "subs").toList.mapM parseSeqSuite
+  pure (.mk (← getStr j "path") false [] [] (← parseKVs j "props") (← getStrs j "tags") tests subs)
+
+/-- every suite of the tree (pre-order) -/
+partial def allSuites (l : List Prepare.PSuite) : List Prepare.PSuite :=
+  l.flatMap (fun s => match s with | .mk _ _ _ _ _ _ _ subs => s :: allSuites subs)
+
+def suitePath : Prepare.PSuite → String
+  | .mk p _ _ _ _ _ _ _ => p
+
+/-- `check_suite_compliance(suite)`: the suite itself, then its tests (sub-suites are NOT visited) -/
+def suiteOwnNodes : Prepare.PSuite → List Policy.Node
+  | .mk path _ _ _ props tags tests _ => ⟨.suite, path, props, tags⟩ :: tests.map Prepare.PTest.toNode
+
+def parseOp (j : Json) : Except String Policy.Op := do
+  match ← getStr j "op" with
+  | "prop_rule" => pure (.propRule (← getStr j "name") (← getStrs j "values") (← getOptBool j "on_test") (← getOptBool j "on_suite")
+                                   (← getBool j "required"))
+  | "tag_rule" => pure (.tagRule (← getStrs j "names") (← getOptBool j "on_test") (← getOptBool j "on_suite"))
+  | "no_unknown_props" => pure .noUnknownProps
+  | "no_unknown_tags" => pure .noUnknownTags
+  | o => throw s!"unknown op {o}"
+
+def parseStep (all : List Prepare.PSuite) (j : Json) : Except String Policy.Step := do
+  match ← getStr j "op" with
+  | "check" =>
+    match ← getStr j "via" with
+    | "create" | "suites" => pure (.check (Prepare.nodesL all))
+    | "suite" =>
+      let p ← getStr j "path"
+      match (allSuites all).find? (fun s => suitePath s == p) with
+      | some s => pure (.check (suiteOwnNodes s))
+      | none => throw s!"no suite {p}"
+    | "test" =>
+      let p ← getStr j "path"
+      match (Prepare.nodesL all).find? (fun n => n.type == .test && n.path == p) with
+      | some n => pure (.check [n])
+      | none => throw s!"no test {p}"
+    | v => throw s!"unknown via {v}"
+  | _ => do pure (.conf (← parseOp j))
+
+def ruleNames (P : Policy.Policy) : Json :=
+  Json.mkObj [("props", strs (P.props.map (·.name))), ("tags", strs (P.tags.map (·.name)))]
+
+def handleSeq (j : Json) : Except String Json := do
+  let all ← (← getArr j "suites").toList.mapM parseSeqSuite
+  let steps ← (← getArr j "steps").toList.mapM (parseStep all)
+  let verdicts := (Policy.run Policy.empty steps).map (fun v => match v with
+    | .ok () => Json.mkObj [("result", "ok")]
+    | .error e => policyErr e)
+  let raises := (Policy.confs steps).map (fun o => Json.bool o.raises)
+  pure (Json.mkObj [("verdicts", Json.arr verdicts.toArray), ("raises", Json.arr raises.toArray),
+                    ("rules", ruleNames (Policy.confAll Policy.empty (Policy.confs steps)))])
+
 def handle (j : Json) : Except String Json := do
+  if (j.getObjVal? "steps").isOk then return (← handleSeq j)
   let policy ← parsePolicy (← j.getObjVal? "policy")
   let decls ← (← getArr j "decls").toList.mapM parseDecl
   let all ← (← getArr j "all").toList.mapM parseSuite
